@@ -21,6 +21,17 @@ pub enum Constraint {
         span: Span,
         reason: ConstraintReason,
     },
+
+    /// Result type of an arithmetic operator: the common type of the operands when they
+    /// agree; when one operand is an integer and the other a float the value is a float
+    /// (the VM promotes), so the result is the float operand's type, never the integer's.
+    ArithResult {
+        left: InferType,
+        right: InferType,
+        result: InferType,
+        span: Span,
+        reason: ConstraintReason,
+    },
 }
 
 impl Constraint {
@@ -49,11 +60,29 @@ impl Constraint {
         }
     }
 
+    /// Create an arithmetic-result constraint
+    pub fn arith_result(
+        left: InferType,
+        right: InferType,
+        result: InferType,
+        span: Span,
+        reason: ConstraintReason,
+    ) -> Self {
+        Constraint::ArithResult {
+            left,
+            right,
+            result,
+            span,
+            reason,
+        }
+    }
+
     /// Get the span of this constraint
     pub fn span(&self) -> Span {
         match self {
             Constraint::Equal { span, .. } => *span,
             Constraint::OneOf { span, .. } => *span,
+            Constraint::ArithResult { span, .. } => *span,
         }
     }
 
@@ -62,6 +91,7 @@ impl Constraint {
         match self {
             Constraint::Equal { reason, .. } => reason,
             Constraint::OneOf { reason, .. } => reason,
+            Constraint::ArithResult { reason, .. } => reason,
         }
     }
 }
